@@ -322,6 +322,12 @@ class UndefVersionFieldInspector(wrapt.ObjectProxy):
     def schemas(self):
         return WrappedLiftedDict(self.__wrapped__.schemas, UndefVersion._mark_class)
 
+    @property
+    def origin(self):
+        # the defining class is reached through the version-less class as well
+        ret = self.__wrapped__.origin
+        return ret if UndefVersion._is_marked(ret) else UndefVersion._mark_class(ret)
+
     def __repr__(self):
         return repr(self.__wrapped__)
 
